@@ -300,3 +300,236 @@ Theorem C07_example_bcdd :
   CInv KBcdd bc_terms 2 bc_final /\ terms_ok KBcdd bc_terms.
 Proof. exact (conj bc_run (conj bc_final_inv bc_terms_ok)). Qed.
 Print Assumptions C07_example_bcdd.
+
+(* ------------------------------------------------------------------------------------------
+   C07k: the apply cache's WEAK references and the collector's cache protocol
+   (model Mgr/ConcCache.v: [kstep p] = one atomic action on table + counts + tokens + cache
+   buckets with lock bits + collector phase; [good] = the code's protocol; proofs in
+   Mgr/ConcCacheProofs.v, ConcCacheThms.v, ConcCacheLog.v, ConcCacheExamples.v)
+   ------------------------------------------------------------------------------------------ *)
+From OxiVerif Require Import Mgr.ConcCache Mgr.ConcCacheProofs Mgr.ConcCacheThms Mgr.ConcCacheLog
+  Mgr.ConcCacheExamples.
+
+(* the invariant, clause by clause: CInv + NO DANGLING WEAK EDGE in any bucket + buckets held by
+   the collector are empty, locked and free of workers + one worker per bucket + exact lock bits *)
+Theorem C07_cache_inv_def : forall k terms nl s,
+  KInv k terms nl s <->
+  (CInv k terms nl (kc s) /\
+   (forall b bk c e, nth_error (kb s) b = Some bk -> b_ent bk = Some c -> In e (ce_edges c) ->
+      edge_ok_b k terms (cn (kc s)) e = true) /\
+   (forall b bk, nth_error (kb s) b = Some bk ->
+      gc_claimed_b (kph s) (knext s) (length (kb s)) b = true ->
+      b_ent bk = None /\ b_bit bk = true /\ ~ In b (map snd (kwk s))) /\
+   NoDup (map snd (kwk s)) /\
+   (forall tid b, In (tid, b) (kwk s) -> exists bk, nth_error (kb s) b = Some bk /\ b_bit bk = true) /\
+   (forall b bk, nth_error (kb s) b = Some bk -> b_bit bk = true ->
+      gc_claimed_b (kph s) (knext s) (length (kb s)) b = true \/ In b (map snd (kwk s))) /\
+   knext s <= length (kb s)).
+Proof. exact KInv_flat. Qed.
+Print Assumptions C07_cache_inv_def.
+
+Theorem C07_cache_init_inv : forall k terms nl nb, KInv k terms nl (kinit nb).
+Proof. exact KInv_init. Qed.
+Print Assumptions C07_cache_init_inv.
+
+(* every enabled action of every thread (table, counts, cache try_lock / set / get / unlock) and
+   of the collector (begin, lock+clear a bucket, sweep one node, unlock a bucket, end) preserves
+   the invariant *)
+Theorem C07_cache_step_inv : forall k terms nl s a s' r,
+  KInv k terms nl s -> kstep k terms nl good s a = Some (s', r) -> KInv k terms nl s'.
+Proof. exact kstep_inv. Qed.
+Print Assumptions C07_cache_step_inv.
+
+(* ... hence every schedule *)
+Theorem C07_cache_run_inv : forall k terms nl sched s s',
+  KInv k terms nl s -> krun k terms nl good s sched = Some s' -> KInv k terms nl s'.
+Proof. exact krun_inv. Qed.
+Print Assumptions C07_cache_run_inv.
+
+Theorem C07_cache_reachable_inv : forall k terms nl nb sched s,
+  krun k terms nl good (kinit nb) sched = Some s -> KInv k terms nl s.
+Proof. exact kreachable_inv. Qed.
+Print Assumptions C07_cache_reachable_inv.
+
+(* the executable checkers find no dangling entry, in particular none in an unlocked bucket *)
+Theorem C07_cache_no_dangling : forall k terms nl s, KInv k terms nl s -> no_dangling_b k terms s = true.
+Proof. exact no_dangling. Qed.
+Print Assumptions C07_cache_no_dangling.
+
+Theorem C07_cache_no_dangling_unlocked : forall k terms nl s,
+  KInv k terms nl s -> dangling_unlocked_b k terms s = false.
+Proof. exact no_dangling_unlocked. Qed.
+Print Assumptions C07_cache_no_dangling_unlocked.
+
+(* a hit returns the value edges of the matching entry; each is valid, the thread owns a token
+   for it, its node is stored with a positive count; the invariant still holds *)
+Theorem C07_cache_hit_valid : forall k terms nl s tid b op args nums s' vals vnums, KInv k terms nl s ->
+  kstep k terms nl good s (CGet tid b op args nums) = Some (s', KRHit vals vnums) ->
+  exists c, kent s b = Some c /\ key_match op args nums c = true /\
+    vals = ce_vals c /\ vnums = ce_vnums c /\
+    (forall e, In e vals -> edge_ok_b k terms (cn (kc s')) e = true) /\
+    (forall e id, In e vals -> eref e = RN id ->
+       In (tid, e) (cown (kc s')) /\ exists nd, cfind (cn (kc s')) id = Some nd /\ crc nd <> 0%N) /\
+    KInv k terms nl s'.
+Proof. exact cache_hit_valid. Qed.
+Print Assumptions C07_cache_hit_valid.
+
+(* whenever the collector removes a node: sweep phase, no worker inside any bucket, every bucket
+   empty and locked; the node has no owner, no parent and no cache entry names it *)
+Theorem C07_cache_gc_node_cache_empty : forall k terms nl s id s' r, KInv k terms nl s ->
+  kstep k terms nl good s (KBase (AGcNode id)) = Some (s', r) ->
+  kph s = GSweep /\ kwk s = [] /\
+  forall b bk, nth_error (kb s) b = Some bk -> b_ent bk = None /\ b_bit bk = true.
+Proof. exact gc_node_cache_empty. Qed.
+Print Assumptions C07_cache_gc_node_cache_empty.
+
+Theorem C07_cache_gc_node_safe : forall k terms nl s id s' r, KInv k terms nl s ->
+  kstep k terms nl good s (KBase (AGcNode id)) = Some (s', r) ->
+  owners (cown (kc s)) id = 0 /\ parents (cn (kc s)) id = 0 /\
+  forall b c e, kent s b = Some c -> In e (ce_edges c) -> eref e <> RN id.
+Proof. exact gc_node_safe. Qed.
+Print Assumptions C07_cache_gc_node_safe.
+
+(* no action of a thread removes or alters a stored node, whatever its count (weak edges may point
+   to nodes with count 0) *)
+Theorem C07_cache_step_keeps_shape : forall k terms nl s a s' r id nd,
+  step k terms nl s a = Some (s', r) -> is_gc_act a = false -> cfind (cn s) id = Some nd ->
+  exists nd', cfind (cn s') id = Some nd' /\ cl nd' = cl nd /\ cch nd' = cch nd.
+Proof. exact step_keeps_shape. Qed.
+Print Assumptions C07_cache_step_keeps_shape.
+
+(* an entry changes only by an insertion into its bucket or the collector's clear (any protocol) *)
+Theorem C07_cache_entry_cases : forall k terms nl p s a s' r b,
+  kstep k terms nl p s a = Some (s', r) ->
+  kent s' b = kent s b \/
+  (exists tid c, a = CAdd tid b c /\ kent s' b = Some c) \/
+  (a = GcLockBucket b /\ kent s' b = None).
+Proof. exact kstep_ent_cases. Qed.
+Print Assumptions C07_cache_entry_cases.
+
+(* as long as an entry is there, all its operand and value edges denote what they denoted *)
+Theorem C07_cache_entry_sem : forall k terms nl sched s s' b c c', KInv k terms nl s ->
+  krun k terms nl good s sched = Some s' ->
+  (forall a, In a sched -> forall tid c0, a <> CAdd tid b c0) ->
+  kent s b = Some c -> kent s' b = Some c' ->
+  c' = c /\ forall e cfg, In e (ce_edges c) ->
+     sem_edge (to_snap k terms nl (kc s')) e cfg = sem_edge (to_snap k terms nl (kc s)) e cfg.
+Proof. exact krun_entry_sem. Qed.
+Print Assumptions C07_cache_entry_sem.
+
+(* a hit yields the memoised function: the entry written by ANY thread, after ANY schedule of all
+   threads and the collector without another insertion into the bucket *)
+Theorem C07_cache_hit_memo : forall k terms nl s0 tid0 b c s1 r0 sched s2 tid op args nums s3 vals vnums,
+  KInv k terms nl s0 -> kstep k terms nl good s0 (CAdd tid0 b c) = Some (s1, r0) ->
+  krun k terms nl good s1 sched = Some s2 ->
+  (forall a, In a sched -> forall t c0, a <> CAdd t b c0) ->
+  kstep k terms nl good s2 (CGet tid b op args nums) = Some (s3, KRHit vals vnums) ->
+  op = ce_op c /\ args = ce_args c /\ vals = ce_vals c /\ vnums = ce_vnums c /\
+  (forall e, In e vals -> edge_ok_b k terms (cn (kc s3)) e = true) /\
+  forall e cfg, In e (ce_edges c) ->
+    sem_edge (to_snap k terms nl (kc s3)) e cfg = sem_edge (to_snap k terms nl (kc s1)) e cfg.
+Proof. exact cache_hit_memo. Qed.
+Print Assumptions C07_cache_hit_memo.
+
+(* tie: the log-level replay [lstep] (what ocaml/c07_main.ml runs on the hooks' event log)
+   accepts the projection of every behaviour of the model ... *)
+Theorem C07_cache_log_sim : forall k terms nl s l a s' r, KInv k terms nl s -> labs s l ->
+  kstep k terms nl good s a = Some (s', r) ->
+  match kerase s a r with
+  | Some la => exists l', lstep k terms nl l la = Some l' /\ labs s' l'
+  | None => labs s' l
+  end.
+Proof. exact ksim. Qed.
+Print Assumptions C07_cache_log_sim.
+
+Theorem C07_cache_trace_sim : forall k terms nl sched s l s' log, KInv k terms nl s -> labs s l ->
+  ktrace k terms nl s sched = Some (s', log) ->
+  exists l', lrun k terms nl l log = Some l' /\ labs s' l'.
+Proof. exact ktrace_sim. Qed.
+Print Assumptions C07_cache_trace_sim.
+
+Theorem C07_cache_labs_of_state : forall s, labs s (labs_unknown s).
+Proof. exact labs_of_state. Qed.
+Print Assumptions C07_cache_labs_of_state.
+
+(* ... and every log it accepts keeps all determined entries free of dangling edges and the
+   buckets held by the collector empty *)
+Theorem C07_cache_log_inv : forall k terms nl l a l',
+  LInv k terms nl l -> lstep k terms nl l a = Some l' -> LInv k terms nl l'.
+Proof. exact lstep_inv. Qed.
+Print Assumptions C07_cache_log_inv.
+
+Theorem C07_cache_log_run_inv : forall k terms nl log l l',
+  LInv k terms nl l -> lrun k terms nl l log = Some l' -> LInv k terms nl l'.
+Proof. exact lrun_inv. Qed.
+Print Assumptions C07_cache_log_run_inv.
+
+Theorem C07_cache_log_start : forall k terms nl t nb,
+  TInv k terms nl t -> LInv k terms nl (mkL t (repeat LUnknown nb) GIdle 0).
+Proof. exact LInv_start. Qed.
+Print Assumptions C07_cache_log_start.
+
+Theorem C07_cache_log_hit_no_dangling : forall k terms nl l b a v l' e,
+  lstep k terms nl l (LHit b a v) = Some l' -> In e (a ++ v) -> edge_ok_b k terms (lt l) e = true.
+Proof. exact lhit_no_dangling. Qed.
+Print Assumptions C07_cache_log_hit_no_dangling.
+
+(* REFUTATIONS (computed witnesses).  pre_gc leaves empty buckets unlocked: a schedule reaches a
+   state with a dangling entry in an unlocked bucket; the next get returns the dangling edge and
+   CInv is violated; the schedule is not a behaviour of the code's protocol *)
+Theorem C07_cache_refute_skip_empty :
+  krun KBdd ex_terms 2 proto_skip_empty (kinit 2) skip_sched = Some skip_final /\
+  dangling_unlocked_b KBdd ex_terms skip_final = true /\
+  no_dangling_b KBdd ex_terms skip_final = false.
+Proof. exact skip_empty_dangling. Qed.
+Print Assumptions C07_cache_refute_skip_empty.
+
+Theorem C07_cache_refute_skip_empty_hit :
+  exists s, krun KBdd ex_terms 2 proto_skip_empty skip_final [CTryLock 1 1; CGet 1 1 7 [E 1; T1] []] = Some s /\
+            In (1, E 1) (cown (kc s)) /\ cfind (cn (kc s)) 1%positive = None /\
+            cinv_b KBdd ex_terms 2 (kc s) = false.
+Proof. exact skip_empty_hit_corrupts. Qed.
+Print Assumptions C07_cache_refute_skip_empty_hit.
+
+Theorem C07_cache_skip_sched_impossible : krun KBdd ex_terms 2 good (kinit 2) skip_sched = None.
+Proof. exact skip_sched_impossible. Qed.
+Print Assumptions C07_cache_skip_sched_impossible.
+
+(* a lock() that does not look at the swapped value: collector and worker both hold the bucket *)
+Theorem C07_cache_refute_blind_lock :
+  krun KBdd ex_terms 2 proto_blind_lock (kinit 1) blind_sched = Some blind_final /\
+  dangling_unlocked_b KBdd ex_terms blind_final = true /\
+  no_dangling_b KBdd ex_terms blind_final = false.
+Proof. exact blind_lock_dangling. Qed.
+Print Assumptions C07_cache_refute_blind_lock.
+
+Theorem C07_cache_refute_blind_lock_hit :
+  exists s, krun KBdd ex_terms 2 proto_blind_lock blind_final [CTryLock 1 0; CGet 1 0 7 [E 1; T1] []] = Some s /\
+            In (1, E 1) (cown (kc s)) /\ cfind (cn (kc s)) 1%positive = None /\
+            cinv_b KBdd ex_terms 2 (kc s) = false.
+Proof. exact blind_lock_hit_corrupts. Qed.
+Print Assumptions C07_cache_refute_blind_lock_hit.
+
+Theorem C07_cache_blind_sched_impossible : krun KBdd ex_terms 2 good (kinit 1) blind_sched = None.
+Proof. exact blind_sched_impossible. Qed.
+Print Assumptions C07_cache_blind_sched_impossible.
+
+Theorem C07_cache_broken_logs_rejected :
+  lrun KBdd ex_terms 2 (labs_unknown (kinit 2))
+    [ LTbl (TGoi 1 [T1; T0] 1); LPreGc 2; LSweep ] = None /\
+  lrun KBdd ex_terms 2 (labs_unknown (kinit 1))
+    [ LTbl (TGoi 1 [T1; T0] 1); LPreGc 1; LLock 0; LAdd 0 [E 1; T1] [E 1] ] = None.
+Proof. exact broken_logs_rejected. Qed.
+Print Assumptions C07_cache_broken_logs_rejected.
+
+(* non-vacuity: a schedule of the code's protocol (insert, hit by another thread, a full
+   collection with busy / miss lookups alongside) runs to completion; the intermediate state
+   with an occupied bucket satisfies the invariant; the projected log is accepted *)
+Theorem C07_cache_example :
+  krun KBdd ex_terms 2 good (kinit 2) ok_sched = Some ok_final /\
+  krun KBdd ex_terms 2 good (kinit 2) (firstn 7 ok_sched) = Some ok_mid /\
+  KInv KBdd ex_terms 2 ok_mid /\
+  (no_dangling_b KBdd ex_terms ok_mid = true /\ dangling_unlocked_b KBdd ex_terms ok_mid = false /\
+   cinv_b KBdd ex_terms 2 (kc ok_mid) = true).
+Proof. exact (conj ok_run (conj ok_mid_run (conj ok_mid_inv ok_mid_checks))). Qed.
+Print Assumptions C07_cache_example.
